@@ -12,10 +12,10 @@ import numpy as np
 from . import runs as R
 from .common import Slice, fit, fr, ind_tok, run_driver
 
-ENGINE_TOK = {"sea": "ea", "seax": "ea", "ga": "ea", "adapt": "ea", "mwea": "ea", "de": "de", "ded": "de", "shade": "shade", "cma": "cma", "cmaw": "cma", "cmas": "cma", "local": "local", "lhs": "lhs", "sobol": "sobol"}
+ENGINE_TOK = {"xsea": "ea", "xde": "de", "sea": "ea", "seax": "ea", "ga": "ea", "adapt": "ea", "mwea": "ea", "de": "de", "ded": "de", "shade": "shade", "cma": "cma", "cmaw": "cma", "cmas": "cma", "local": "local", "lhs": "lhs", "sobol": "sobol"}
 
 
-CLS_TOK = {"EADeme": "ea", "DEDeme": "de", "SHADEDeme": "shade", "CMADeme": "cma", "LocalDeme": "local", "LHSDeme": "lhs", "SobolDeme": "sobol"}
+CLS_TOK = {}  # class names are compared verbatim
 
 
 def lsc_tok(s):
@@ -94,9 +94,9 @@ def cfg_line(spec):
     lv = []
     for i, L in enumerate(spec["levels"]):
         e = L["engine"]
-        elit = 1 if (e in ("de", "ded", "shade") or (e in ("sea", "seax", "ga", "adapt") and L.get("k_elites", 0) >= 1)) else 0
+        elit = 1 if (e in ("de", "ded", "shade", "xde") or (e in ("sea", "seax", "ga", "adapt", "xsea") and L.get("k_elites", 0) >= 1)) else 0
         gens = L["generations"] if e not in ("lhs", "sobol", "local") else 1
-        lv.append(f"{ENGINE_TOK[e]} {gens} {L['pop_size']} {lsc_tok(L['lsc'])} {lvl_stack[i]} {elit} {box}")
+        lv.append(f"{ENGINE_TOK[e]} {R.CLASS_OF[e]} {gens} {L['pop_size']} {lsc_tok(L['lsc'])} {lvl_stack[i]} {elit} {box}")
     return f"tcfg {1 if spec['maximize'] else 0} {1 if spec['hibernation'] else 0} {len(lv)} " + " ".join(lv) + f" {gsc_tok(spec, prec)} {mech_tok(spec)} {stacks}"
 
 
